@@ -610,3 +610,12 @@ fn resource_allocation_to_msg(
             .collect(),
     }
 }
+
+/// Verification hook: the private periodic retract check, reachable from `crate::verif`.
+#[cfg(it4innovations_hyperqueue_verif)]
+pub(crate) async fn verif_retract_check_process(
+    check_interval: Duration,
+    state_ref: WrappedRcRefCell<WorkerState>,
+) {
+    retract_check_process(check_interval, state_ref).await
+}
